@@ -438,6 +438,44 @@ func (fr *Frame) lookupLocal(name string, h *ssa.BasicBlock) (Val, bool) {
 	if best != nil {
 		return fr.get(best), true
 	}
+	if h != nil {
+		// the key variable of a `for i, x := range s` loop, named in a loop clause at the loop head: Go defines it only
+		// inside the body, but "the index of the next element" (= the number of completed iterations) is what the same
+		// name denotes at the head of the equivalent index loop `for i := 0; i < len(s); i++`. It is the hidden index
+		// plus one. This keeps loop clauses valid when an index loop is rewritten as a range loop.
+		for _, in := range h.Instrs {
+			p, ok := in.(*ssa.Phi)
+			if !ok || p.Comment != "rangeindex" {
+				continue
+			}
+			isKey := false
+			for _, d := range fr.debugRef[name] {
+				if bo, ok := d.X.(*ssa.BinOp); ok && !d.IsAddr && bo.Op == token.ADD && bo.X == ssa.Value(p) {
+					isKey = true
+				}
+			}
+			if !isKey {
+				continue
+			}
+			var pv Val
+			found := false
+			if fr.useHead {
+				if li := fr.loops[h]; li != nil {
+					if v, ok := li.headVals[p]; ok {
+						pv, found = v, true
+					}
+				}
+			}
+			if !found {
+				if v, ok := fr.vals[p]; ok {
+					pv, found = v, true
+				}
+			}
+			if found && len(pv.L) == 1 {
+				return Val{T: pv.T, L: []string{"(+ " + pv.L[0] + " 1)"}}, true
+			}
+		}
+	}
 	return Val{}, false
 }
 
